@@ -10,10 +10,14 @@ complete elements (new key, duplicate key, array keys), container heads and payl
   BsonTokens       openers for every type code 0x00..0xFF (every defined type at its
                    boundary payloads, deprecated types, reserved codes), names and strings
                    with valid / invalid UTF-8, nested documents and arrays, wrong sizes;
+                   every defined-type element again as the first element of an array;
                    bare size prefixes at boundary values
   BsonSmallTokens  the reduced set for the later positions
   BsonSampleDocs   complete single-element documents (used by C07RepBson.tla for the
                    strict-prefix and single-byte-mutation families)
+  BsonCorpusDocs   authoritative documents: the bsonspec.org examples, the examples of jsoncons'
+                   bson.md, libbson's test documents /repo/test/bson/input/test*.bson (read when
+                   this script runs; the generated module is self-contained)
 """
 import os, struct
 
@@ -147,10 +151,17 @@ SMALL = [
 SMALL = uniq(SMALL)
 # ---------------------------------------------------------------- openers
 OPEN = []
-ROOM = (0, 3)                          # d: bytes left between the opener and the terminator
 for e in ELEMS:
-    for d in ROOM:
+    # d: bytes left between the opener and the terminator (reserved type codes: exact size only)
+    for d in ((0, 3) if e[0] in DEFINED else (0,)):
         OPEN.append(i32(4 + len(e) + 1 + d) + e)
+# the same elements as the first element "0" of an array {"a": [e]} (jsoncons decodes array elements on a separate path);
+# the outer document is left open: the next token 0x00 closes it
+for e in ELEMS:
+    if e[0] in DEFINED and e[1:3] == [0x61, 0x00]:
+        e0 = [e[0], 0x30, 0x00] + e[3:]
+        inner = i32(4 + len(e0) + 1) + e0 + [0]
+        OPEN.append(i32(4 + 3 + len(inner) + 1) + [0x04, 0x61, 0x00] + inner)
 BASE = [el(0x0a, [], b'a'), el(0x10, i32(1), b'a'), el(0x02, string(b'a'), b'a'), el(0x03, doc([]), b'a'), el(0x04, doc([]), b'a'), el(0x08, [1], b'a')]
 for e in BASE:
     for d in (-1, 1, 2, 4, 5, 7, 9, 8):
@@ -169,10 +180,26 @@ OPEN = uniq(OPEN)
 # complete single-element documents
 DOCS = uniq(i32(4 + len(e) + 1) + e + [0] for e in ELEMS if e[0] != 0 and (e[0] in DEFINED or e[0] in (0x14, 0x80)) and len(e) < 40)
 
+# authoritative corpus: the two examples of bsonspec.org, the examples of /repo/doc/ref/bson/bson.md, and libbson's test
+# documents that ship in /repo/test/bson/input (test1-39, 58: valid; test40-57, 59: corrupt according to libbson's test-bson.c)
+CORPUS = [
+    list(b'\x16\x00\x00\x00\x02hello\x00\x06\x00\x00\x00world\x00\x00'),
+    list(b'\x31\x00\x00\x00\x04BSON\x00\x26\x00\x00\x00\x020\x00\x08\x00\x00\x00awesome\x00\x011\x00\x33\x33\x33\x33\x33\x33\x14\x40\x102\x00\xc2\x07\x00\x00\x00\x00'),
+    list(bytes.fromhex('27000000' '0248656c6c6f00' '06000000576f726c6400' '054461746100' '0600000080666f6f626172' '00')),
+    list(bytes.fromhex('180000001361000100000000000000000000000000000000')),
+    list(bytes.fromhex('160000000b726567657800' '5e6162636400' '696c7800' '00')),
+    list(bytes.fromhex('16000000076f696400' '1234567890abcdef1234abcd' '00')),
+    list(bytes.fromhex('13000000057044000500000080' '48656c6c6f' '00')),
+]
+import glob
+for f in sorted(glob.glob('/repo/test/bson/input/test*.bson'), key=lambda q: int(os.path.basename(q)[4:-5])):
+    CORPUS.append(list(open(f, 'rb').read()))
+CORPUS = uniq(CORPUS)
+
 def tla(name, toks):
     return name + ' == {\n' + ',\n'.join('  <<%s>>' % ', '.join(map(str, t)) for t in toks) + '\n}\n'
 out = '---------------------------- MODULE C07TokBson ----------------------------\n(* GENERATED by tools/gen_c07_tokens_bson.py -- do not edit by hand. *)\n'
-out += tla('BsonTokens', OPEN) + tla('BsonSmallTokens', SMALL) + tla('BsonSampleDocs', DOCS)
+out += tla('BsonTokens', OPEN) + tla('BsonSmallTokens', SMALL) + tla('BsonSampleDocs', DOCS) + tla('BsonCorpusDocs', CORPUS)
 out += '=============================================================================\n'
 open(os.path.join(os.path.dirname(os.path.abspath(__file__)), '..', 'spec', 'gen', 'C07TokBson.tla'), 'w').write(out)
-print('elements', len(ELEMS), 'openers', len(OPEN), 'small', len(SMALL), 'docs', len(DOCS), 'doc bytes', sum(len(d) for d in DOCS))
+print('corpus', len(CORPUS), 'elements', len(ELEMS), 'openers', len(OPEN), 'small', len(SMALL), 'docs', len(DOCS), 'doc bytes', sum(len(d) for d in DOCS))
